@@ -497,6 +497,16 @@ pub(crate) fn run(seed: u64, n: u64, out: &mut Out) {
                         let scripts = if let Val::L(l) = &a[0] { coq_list(&l.iter().map(|p| if let Val::L(q) = p { format!("({}, {})", num(&q[0]), num(&q[1])) } else { String::new() }).collect::<Vec<_>>()) } else { "[]".into() };
                         format!("(set_scripts_writes {} (Some {}) {})", scripts, num(&a[1]), genesis)
                     } else { "[]".to_string() }
+                } else if matches!(op, Op::Download) && ws.starts_with("((complete_writes") {
+                    // how many of the pending records one Download operation gets through is the harness's pumping (blocks in transit per
+                    // peer, rounds), not the store's logic: the write sequence is modelled for the records this operation completed; a
+                    // record it only began shows as extra writes and disagrees
+                    let still: Vec<u64> = matched_records(w.net.as_ref().unwrap()).iter().map(|r| r.0).collect();
+                    let parts: Vec<&str> = ws[1..ws.len() - 1].split(" ++ ").filter(|p| {
+                        let start: u64 = p.trim_start_matches("(complete_writes ").split(' ').next().and_then(|x| x.parse().ok()).unwrap_or(u64::MAX);
+                        !still.contains(&start)
+                    }).collect();
+                    if parts.is_empty() { "[]".to_string() } else { format!("({})", parts.join(" ++ ")) }
                 } else { ws.to_string() };
                 out.case(&format!("writes-{}-{}", hist, oi), &["write-order", op.name()], &format!("(run_prefixes {} {})", st0, ws), &Val::l(states), Ok(()),
                     &format!("history {}: the store before each of the {} writes of operation {} ({}) and after it", hist, writes[oi], oi, op.name()));
